@@ -31,12 +31,27 @@ Bump(s, ks) == [k \in StatKeys |-> IF k \in ks THEN s[k] + 1 ELSE s[k]]
 
 \* attribute the strict tags: those that vanish under all deviations are
 \* known findings (dev = the single deviation that removes them, if one does)
-Attribute(strict, all, single(_)) ==
-  LET S == strict IN
+\* When no single deviation removes a tag (a list holding a SliceLossIndication and a CCFB packet needs
+\* two), the smallest set that does is named "A+B" in a fixed order; the check then requires a listed
+\* finding for every component.
+DevSeq == << "CCFB_ANY_FMT", "CCFB_NUM", "REMB_MANTISSA0", "SLI_PT205" >>
+DevName(S) ==
+  LET RECURSIVE go(_, _)
+      go(i, acc) == IF i > Len(DevSeq) THEN acc
+                    ELSE IF DevSeq[i] \in S THEN go(i + 1, IF acc = "" THEN DevSeq[i] ELSE acc \o "+" \o DevSeq[i])
+                    ELSE go(i + 1, acc)
+  IN go(1, "")
+Attribute(strict, all, under(_)) ==
+  LET S == strict
+      OfSize(t, n) == { T \in SUBSET Deviations : Cardinality(T) = n /\ t \notin under(T) }
+  IN
   { [tag |-> t,
      dev |-> IF t \in all THEN ""
-             ELSE IF \E d \in Deviations : t \notin single(d)
-                  THEN CHOOSE d \in Deviations : t \notin single(d) ELSE "several"] : t \in S }
+             ELSE IF \E d \in Deviations : t \notin under({d})
+                  THEN CHOOSE d \in Deviations : t \notin under({d})
+                  ELSE IF OfSize(t, 2) # {} THEN DevName(CHOOSE T \in OfSize(t, 2) : TRUE)
+                  ELSE IF OfSize(t, 3) # {} THEN DevName(CHOOSE T \in OfSize(t, 3) : TRUE)
+                  ELSE DevName(Deviations)] : t \in S }
 SetToSeq(S) == LET RECURSIVE go(_) go(T) == IF T = {} THEN << >> ELSE LET x == CHOOSE x \in T : TRUE IN << x >> \o go(T \ {x})
                IN go(S)
 Record(tags, kind) == LET sq == SetToSeq(tags) IN bad \o [i \in 1..Len(sq) |-> [l |-> l, tag |-> sq[i].tag, dev |-> sq[i].dev, kind |-> kind]]
@@ -56,7 +71,7 @@ Verdict(G(_), X, rel) ==
   ELSE IF ~rel THEN { [tag |-> t, dev |-> ""] : t \in strict }
   ELSE LET all == G(Deviations) \cup X IN
        IF strict \subseteq all THEN { [tag |-> t, dev |-> ""] : t \in strict }     \* no deviation explains anything
-       ELSE Attribute(strict, all, LAMBDA d : G({d}) \cup X)
+       ELSE Attribute(strict, all, LAMBDA T : G(T) \cup X)
 
 e == Trace[l]
 Step(tags, ks, kind) ==
@@ -213,7 +228,12 @@ TrUnmarshal ==
               ELSE IF res.ok # (pk[e.eqh].k # "NONE") \/ (res.ok /\ res.out # pk[e.eqh])
                    THEN {"C13:depends_on_octets_after_declared_length"} ELSE {}
          Z == IF e.entry = "TWCC" THEN Twcc13Tags(buf[e.b], res) ELSE IF e.entry = "REMB" THEN Remb14Tags(buf[e.b], res) ELSE {}
-         G(D) == UnmarshalGuard(D, e.entry, e.b, res) \cup X \cup Y \cup Z IN
+         \* C18: a receiver that already held a packet ends up with what a fresh receiver gets from the same
+         \* octets, and the decode writes nothing the caller still owns
+         R == IF "reuse" \notin DOMAIN e \/ res.panic THEN {}
+              ELSE (IF e.fresh.ok # res.ok \/ (res.ok /\ e.fresh.out # res.out) THEN {"C18:decode_depends_on_receiver_history"} ELSE {})
+                   \cup (IF ~e.memsame THEN {"C18:caller_memory_written"} ELSE {})
+         G(D) == UnmarshalGuard(D, e.entry, e.b, res) \cup X \cup Y \cup Z \cup R IN
      /\ pk' = [pk EXCEPT ![e.h] = IF res.ok THEN res.out ELSE None]
      /\ memo' = [memo EXCEPT ![e.h] = SrcMemo(e.b, e.entry)] /\ UNCHANGED << buf, prov, provdec >>
      /\ fromdec' = IF res.ok THEN fromdec \cup {e.h} ELSE fromdec \ {e.h}
@@ -248,7 +268,11 @@ TrDatagram ==
 TrUnitDec ==
   /\ e.op = "udec"
   /\ LET res == DecRes(e)
-         G(D) == UnitDecodeTags(e.entry, buf[e.b], res) IN
+         \* a sub-structure value that decoded something before gives what a fresh one gives (C16, C18)
+         R == IF "reuse" \notin DOMAIN e \/ res.panic THEN {}
+              ELSE IF e.fresh.ok # res.ok \/ (res.ok /\ e.fresh.out # res.out)
+                   THEN {"C16:unit_decode_depends_on_receiver_history", "C18:decode_depends_on_receiver_history"} ELSE {}
+         G(D) == UnitDecodeTags(e.entry, buf[e.b], res) \cup R IN
      /\ UNCHANGED vars /\ Step(Verdict(G, InputMod(e), (e.entry \in DevKinds)), {"unit_dec"}, e.entry)
 TrUnitEnc ==
   /\ e.op = "uenc"
